@@ -14,7 +14,7 @@ class C17(pure.Spec):
                 "C17_url_host_by_default", "C17_name_case_iff"]
     crate = "app"
     binary = "vh-app"
-    design_ref = "DESIGN.md §4 C17"
+    design_ref = "DESIGN.md §5 C17"
     rule = ("the whole configuration matrix of the property, exhaustively (3 server certificates x name matches/differs x "
             "skip-verify x 3 client certificates x client CA configured or not = 72 configurations, rcgen-generated chains): "
             "the real tls_connect (make_client_config) connects over loopback to the real run_listener serving an identity "
